@@ -347,7 +347,7 @@ func (c *cmafIngester) start(ctx context.Context) {
 	c.setState(ingesterStateRunning)
 
 	refRep := c.asset.refRep
-	lastNr := findLastSegNr(c.cfg, c.asset, nowMS, refRep)
+	lastNr := findLastSegNr(c.cfg, c.asset, nowMS, refRep) + c.cfg.getStartNr() // index of the last segment -> its number
 	nextSegNr := lastNr + 1
 	lastSegNrToSend := -1
 
